@@ -1,6 +1,6 @@
 (* Driver entry for the system model (C02, C12, C18, C03). *)
 From Coq Require Import List String Ascii Arith Bool ZArith.
-From PC Require Import Base.Sexp Comp.Syntax Comp.Compile Subst.VarSubst Sys.System Sys.Des Run.RComp.
+From PC Require Import Base.Sexp Comp.Syntax Comp.Compile Subst.VarSubst Sys.System Sys.Des Finish.Apply Run.RComp.
 Import ListNotations.
 Local Open Scope string_scope.
 
@@ -47,6 +47,33 @@ Definition run_des (req : sexp) : sexp :=
           | Err k => sErr k
           end
       | _, _, _, _ => bad_request
+      end
+  | _ => bad_request
+  end.
+
+(* finish: (files includes ctr basename args fixed records) -> the three output tables *)
+Definition d_record (s : sexp) : option (string * list ascii) :=
+  match s with Li [At n; At v] => Some (n, chars v) | _ => None end.
+Definition run_finish (req : sexp) : sexp :=
+  match req with
+  | Li [files; incs; ctr; At base; args; fixed; records] =>
+      match dL d_fentry files, dL dS incs, dN ctr, dL dZ args, dL d_fixed fixed, dL d_record records with
+      | Some fs, Some incs, Some ctr, Some args, Some fx, Some recs =>
+          match load_file fs incs 12 ctr base args "" "." with
+          | OK (o, _) =>
+              match fix_all o fx with
+              | OK o' =>
+                  match apply_obj 12 (table_of recs) o' with
+                  | OK f => sOk (Li [sL (fun p => Li [At (fst p); At (unchars (snd p))]) (fi_seqs f);
+                                     sL (fun p => Li [At (fst (fst p)); sB (snd (fst p)); At (unchars (snd p))]) (fi_strands f);
+                                     sL (fun p => Li [At (fst p); At (unchars (snd p))]) (fi_structs f)])
+                  | Err k => sErr k
+                  end
+              | Err k => sErr ("fix-" ++ k)
+              end
+          | Err k => sErr ("load-" ++ k)
+          end
+      | _, _, _, _, _, _ => bad_request
       end
   | _ => bad_request
   end.
